@@ -142,6 +142,9 @@ func evalOutcome(oc *Outcome) []finding {
 	if len(oc.FdFinal) > 0 {
 		out = append(out, finding{"no descriptor remains after everything was closed", "life-fd-leak:" + t, strings.Join(oc.FdFinal, "; ")})
 	}
+	if len(oc.NotClosed) > 0 {
+		out = append(out, finding{"every listener and socket the closed object opened is closed when Close returns", "life-socket-not-closed:" + t, strings.Join(oc.NotClosed, "; ")})
+	}
 	if len(oc.LatePackets) > 0 {
 		out = append(out, finding{"no packet callback for a media after it was de-registered (PAUSE)", "life-callback-after-pause:packet", strings.Join(oc.LatePackets, "; ")})
 	}
